@@ -21,7 +21,18 @@ Import ListNotations.
 Local Open Scope list_scope.
 
 Record rsig : Type := mkR { r_entry : nat; r_args : list ty; r_rets : list ty }.     (* types: TOP FIRST *)
-Record astate : Type := mkA { a_rid : nat; a_fp : bool; a_stk : list ty }.
+(* [a_sl]: types of scratch slots known at this pc (an association list; a slot that is absent is [any]).
+   Flow-sensitive inside a routine: [store k] records the type of the stored cell, [load k] pushes the recorded
+   type, [stores] and every [callsub] forget everything (the callee may write any slot) - the values a routine
+   spills around a call travel on the stack, where they keep their types. *)
+Record astate : Type := mkA { a_rid : nat; a_fp : bool; a_stk : list ty; a_sl : list (N * ty) }.
+
+Definition slot_ty (sl : list (N * ty)) (k : N) : ty :=
+  match alookup N.eqb k sl with Some t => t | None => TA end.
+Definition set_slot (sl : list (N * ty)) (k : N) (t : ty) : list (N * ty) := (k, t) :: aremove N.eqb k sl.
+Definition sl_le (a b : list (N * ty)) : bool := forallb (fun kt => ty_le (slot_ty a (fst kt)) (snd kt)) b.
+Definition join_sl (a b : list (N * ty)) : list (N * ty) :=
+  filter (fun kt => negb (ty_eqb (snd kt) TA)) (map (fun kt => (fst kt, ty_join (snd kt) (slot_ty b (fst kt)))) a).
 Definition annot : Type := list (option astate).
 
 Fixpoint stk_le (a b : list ty) : bool :=
@@ -31,7 +42,7 @@ Fixpoint stk_le (a b : list ty) : bool :=
   | _, _ => false
   end.
 Definition astate_le (a b : astate) : bool :=
-  Nat.eqb (a_rid a) (a_rid b) && Bool.eqb (a_fp a) (a_fp b) && stk_le (a_stk a) (a_stk b).
+  Nat.eqb (a_rid a) (a_rid b) && Bool.eqb (a_fp a) (a_fp b) && stk_le (a_stk a) (a_stk b) && sl_le (a_sl a) (a_sl b).
 
 Fixpoint find_rid_from (rt : list rsig) (k : nat) (pc : nat) : option nat :=
   match rt with
@@ -58,7 +69,25 @@ Definition pos_from_bottom (n idx : nat) : option nat :=
 Definition frame_rets (nargs nrets : nat) (s : list ty) : list ty :=
   rev (firstn nrets (skipn nargs (rev s))).
 
-Definition with_stk (a : astate) (s : list ty) : astate := mkA (a_rid a) (a_fp a) s.
+Definition with_stk (a : astate) (s : list ty) : astate := mkA (a_rid a) (a_fp a) s (a_sl a).
+
+(* the effect of an ordinary opcode on the slot types (and the refinement of what [load] pushes), given the
+   stack [s'] its signature produces *)
+Definition slot_effect (i : pinstr) (a : astate) (s' : list ty) : astate :=
+  match p_op i, p_imms i with
+  | O_load, [IInt k] =>
+      match s' with
+      | _ :: r => mkA (a_rid a) (a_fp a) (slot_ty (a_sl a) k :: r) (a_sl a)
+      | [] => with_stk a s'
+      end
+  | O_store, [IInt k] =>
+      match a_stk a with
+      | t :: _ => mkA (a_rid a) (a_fp a) s' (set_slot (a_sl a) k t)
+      | [] => mkA (a_rid a) (a_fp a) s' []
+      end
+  | (O_store | O_stores), _ => mkA (a_rid a) (a_fp a) s' []
+  | _, _ => with_stk a s'
+  end.
 
 Local Open Scope string_scope.
 
@@ -101,8 +130,8 @@ Definition transfer_ctl (strict lax_ret : bool) (p : program) (rt : list rsig) (
               | Some r =>
                   match take_ops strict (r_args r) s with
                   | Some rest =>
-                      TSucc [(next, with_stk a (r_rets r ++ rest))]
-                            (Some (t, mkA k false (map (fun _ => TA) (r_args r))))
+                      TSucc [(next, mkA (a_rid a) (a_fp a) (r_rets r ++ rest) [])]
+                            (Some (t, mkA k false (map (fun _ => TA) (r_args r)) []))
                   | None => TErr "callsub: arguments missing on the routine's stack or of the wrong type"
                   end
               end
@@ -114,7 +143,7 @@ Definition transfer_ctl (strict lax_ret : bool) (p : program) (rt : list rsig) (
           if negb (a_fp a) && negb (Nat.eqb (a_rid a) 0) && Nat.eqb (r_entry r) pc
              && Nat.eqb (N.to_nat na) (List.length (r_args r)) && Nat.eqb (N.to_nat nr) (List.length (r_rets r))
              && Nat.eqb (List.length s) (List.length (r_args r))
-          then TSucc [(next, mkA (a_rid a) true s)] None
+          then TSucc [(next, mkA (a_rid a) true s (a_sl a))] None
           else TErr "proto not at a routine entry or not matching the routine's signature"
       | None => TErr "proto: bad routine table"
       end
@@ -186,7 +215,7 @@ Definition transfer (strict lax_ret : bool) (p : program) (rt : list rsig) (pc :
   | SCtl => transfer_ctl strict lax_ret p rt pc i a
   | sd =>
       match sig_apply strict sd (a_stk a) with
-      | Some s' => TSucc [(S pc, with_stk a s')] None
+      | Some s' => TSucc [(S pc, slot_effect i a s')] None
       | None => TErr "operand missing on the routine's stack or of the wrong type"
       end
   end.
@@ -226,7 +255,7 @@ Definition rt_ok (rt : list rsig) : bool :=
   end.
 
 Definition annot_inductive (p : program) (rt : list rsig) (ann : annot) : bool :=
-  rt_ok rt && le_at ann 0 (mkA 0 false []) && not_proto_at p 0 &&
+  rt_ok rt && le_at ann 0 (mkA 0 false [] []) && not_proto_at p 0 &&
   forallb (check_pc false p rt ann) (seq 0 (List.length ann)).
 
 (* additionally: no operand that needs a definite type is an [any] cell *)
@@ -279,7 +308,9 @@ Fixpoint work_loop (fuel : nat) (lax_ret : bool) (p : program) (rt : list rsig) 
                 | Some b =>
                     if Nat.eqb (a_rid a) (a_rid b) && Bool.eqb (a_fp a) (a_fp b) then
                       match join_stk (a_stk a) (a_stk b) with
-                      | Some j => Some (mkA (a_rid b) (a_fp b) j, negb (stk_eqb j (a_stk b)))
+                      | Some j =>
+                          let jl := join_sl (a_sl b) (a_sl a) in
+                          Some (mkA (a_rid b) (a_fp b) j jl, negb (stk_eqb j (a_stk b) && sl_le jl (a_sl b)))
                       | None => None
                       end
                     else None
@@ -308,7 +339,7 @@ Local Close Scope string_scope.
 
 Definition compute_once (lax_ret : bool) (p : program) (rt : list rsig) : cres :=
   let n := List.length (pr_code p) in
-  work_loop (64 * (n + 16)) lax_ret p rt (repeat None n) [(0%nat, mkA 0 false [])].
+  work_loop (256 * (n + 16)) lax_ret p rt (repeat None n) [(0%nat, mkA 0 false [] [])].
 
 (* results whose actual type is not below the declared one (an anytype expression returned from a
    typed subroutine) are weakened to [any] for the callers *)
